@@ -117,8 +117,23 @@ func c02Member(p *chk.Prog, r *chk.Report) {
 	}
 	inc := incs[0]
 	cnt := f.ObjOf(inc.Node.(*ast.IncDecStmt).X)
-	x.Check("poolFor:count:buggy-filter", inc.Pos(), g.Dominated(inc, g.GPat(false, "P.AvoidBuggyIPs && ipConfusesBuggyFirmwares(IP)")), "", "a .0/.255 address can count as member of an avoid-buggy pool")
-	x.Check("poolFor:count:contains", inc.Pos(), g.Dominated(inc, g.GPat(true, "C.Contains(IP)")), "", "an address can count as member without cidr.Contains(ip)")
+	var ipVar, poolVar func(ast.Expr) bool = func(ast.Expr) bool { return false }, func(ast.Expr) bool { return false }
+	for _, rs := range f.RangeLoops(isParam(f, "ips")) {
+		ipVar = rangeVal(f, rs)
+	}
+	for _, rs := range f.RangeLoops(isParam(f, "pools")) {
+		poolVar = rangeVal(f, rs)
+	}
+	cidrOfPool := func(e ast.Expr) bool {
+		for _, rs := range f.RangeLoops(func(x ast.Expr) bool { return f.MatchWith("P.CIDR", x, chk.H("P", poolVar)) != nil }) {
+			if rangeVal(f, rs)(e) {
+				return true
+			}
+		}
+		return false
+	}
+	x.Check("poolFor:count:buggy-filter", inc.Pos(), g.Dominated(inc, g.GPat(false, "P.AvoidBuggyIPs && ipConfusesBuggyFirmwares(IP)", chk.H("P", poolVar), chk.H("IP", ipVar))), "", "a .0/.255 address can count as member of an avoid-buggy pool")
+	x.Check("poolFor:count:contains", inc.Pos(), g.Dominated(inc, g.GPat(true, "C.Contains(IP)", chk.H("C", cidrOfPool), chk.H("IP", ipVar))), "", "an address can count as member without a CIDR of that pool containing that address")
 	for _, rt := range returnsOf(g) {
 		res := retResults(rt)
 		if len(res) != 1 || f.IsNilLit(res[0]) {
